@@ -44,3 +44,30 @@ func VF_C18_TokenFilters(L int, kind int) {
 	}
 	vfAssert(true, "filter returned")
 }
+
+// C18, shingle filter behind a filter that leaves position gaps: every output
+// token has 0 <= start <= end within the text and a non-negative position
+// increment, for every placement of up to three tokens (arbitrary offsets in
+// increasing order, arbitrary position gaps of 1..3) and shingle sizes 2..3.
+//
+// vf:harness property=C18 cases=nt:1..3;max:2..3;orig:0..1 maxpaths=600000 unwind=400
+// vf:bounds nt tokens (1..3) with one-byte terms, arbitrary offsets 0 <= start < end <= 64 in increasing order and position increments 1..3 (gaps as a stop filter leaves them); shingle sizes 2..max, with and without the original tokens, separator " ", filler "_"
+// vf:assume fixed separator and filler; longer streams are outside
+func VF_C18_ShingleOffsets(nt int, max int, orig int) {
+	var in analysis.TokenStream
+	prevEnd := 0
+	for i := 0; i < nt; i++ {
+		st, en, inc := vfInt("start"), vfInt("end"), vfInt("incr")
+		vfAssume(st >= prevEnd && st < en && en <= 64)
+		vfAssume(inc >= 1 && inc <= 3)
+		prevEnd = en
+		in = append(in, &analysis.Token{Term: []byte{vfByte("term")}, Start: st, End: en, PositionIncr: inc, Type: analysis.AlphaNumeric})
+	}
+	f := NewShingleFilter(2, max, orig == 1, " ", "_")
+	out := f.Filter(in)
+	for _, t := range out {
+		vfAssert(0 <= t.Start && t.Start <= t.End && t.End <= 64, "token offsets satisfy 0 <= start <= end within the text")
+		vfAssert(t.PositionIncr >= 0, "position increments are non-negative")
+	}
+	vfAssert(true, "filter returned")
+}
